@@ -98,7 +98,12 @@ def shrink_history(prog, hist, ref, key):
 
 
 def run(ck: core.Check):
-    from translator import renames_ir, writes
+    from translator import graph_setters, renames_ir, writes
+
+    try:
+        ck.cov["generated_graph_setters"] = graph_setters.generate()
+    except Exception as e:  # noqa: BLE001
+        ck.broken("translator", "translator/graph_setters.py could not read src/spox", f"{type(e).__name__}: {e}")
 
     try:
         ck.cov["generated_renames_ir"] = renames_ir.generate()["ir"]
@@ -212,6 +217,22 @@ def run(ck: core.Check):
             small = shrink_history(c["prog"], c["hist"][: step + 1] if 0 <= step < len(c["hist"]) else c["hist"], c["ref"], key)
             ck.failure(key, what, {"mode": "history", "prog": c["prog"], "hist": small, "ref": c["ref"]})
 
+    # ---- oracle: Graph setters applied to an already built Graph (memoised build result)
+    probes = 0
+    for c in hcases[: ck.pick(60, 400)]:
+        if c["ref"] is None:
+            continue
+        try:
+            bad_ = lh.graph_setter_probe(c["prog"], c["ref"])
+        except Exception as e:  # noqa: BLE001 - internal API moved
+            ck.broken("correspondence", "Graph setters not observable (spox._graph.results / Graph.with_* / get_arguments)", f"{type(e).__name__}: {e}")
+            break
+        probes += 1
+        ck.count(None)
+        for key, what in bad_:
+            ck.failure(key, what, {"mode": "graphcache", "prog": c["prog"], "ref": c["ref"]})
+    stats["graph_setter_probes"] = probes
+
     # ---- oracle: look-alike programs built, freed and built again (results keyed by object identity go stale)
     n_fam = ck.pick(40, 200)
     fams = 0
@@ -296,6 +317,11 @@ def replay(ck: core.Check, doc) -> bool:
     if mode == "renames":
         rc = case["rename_case"]
         bad = judge_rename(rc, run_rename_real(rc))
+        for key, what in bad:
+            print(f"{key}: {what}")
+        return bool(bad)
+    if mode == "graphcache":
+        bad = lh.graph_setter_probe(case["prog"], case["ref"])
         for key, what in bad:
             print(f"{key}: {what}")
         return bool(bad)
